@@ -3,7 +3,7 @@
 fails with it and passes without it), store it under /verif/seeded/<id>/, then run the registered quick checks against it
 (applied to /repo, undone straight afterwards) and record which of them raise an alarm."""
 import json, os, subprocess, sys, shutil
-OUTS = [("/tmp/mut/out", ""), ("/tmp/mut/out2", "r2"), ("/tmp/mut/out3", "r3"), ("/tmp/mut/out4", "r4"), ("/tmp/mut/out5", "r5"), ("/tmp/mut/out6", "r6"), ("/tmp/mut/out7", "r7"), ("/tmp/mut/out8", "r8"), ("/tmp/mut/out9", "r9")]
+OUTS = [("/tmp/mut/out", ""), ("/tmp/mut/out2", "r2"), ("/tmp/mut/out3", "r3"), ("/tmp/mut/out4", "r4"), ("/tmp/mut/out5", "r5"), ("/tmp/mut/out6", "r6"), ("/tmp/mut/out7", "r7"), ("/tmp/mut/out8", "r8"), ("/tmp/mut/out9", "r9"), ("/tmp/mut/out10", "r10")]
 WT = "/tmp/mut/confirm"
 SEEDED = "/verif/seeded"
 EXTRA = {"C01": ["C09"], "C04": ["C09"], "C18": ["C16", "C08", "C09", "C11"], "C20": ["C09", "C19"], "C17": ["C19", "C18", "C14", "C03"], "C03": ["C14", "C02", "C19", "C01", "C06"], "C07": ["C08"], "C11": ["C10"], "C15": ["C13"], "C06": ["C16", "C02"], "C05": ["C16", "C09"], "C13": ["C15"], "C14": ["C03"]}
